@@ -195,6 +195,33 @@ Example c19_startup_warning_example :
   = [lit "invalid RIP_OPENRESPONSES_TOOL_CHOICE=""bogus"": unsupported value (expected auto|none|required|function:<name>|json:<tool_choice_json>); defaulting to auto"].
 Proof. exact startup_warning_example. Qed.
 
+(* rip-cli (`rip run --provider P [--model ..] [--stateless-history] ..`, main.rs apply_openresponses_env): the CLI copies the
+   provider's key variable into RIP_OPENRESPONSES_API_KEY of its own environment, which the authority it spawns inherits,
+   and sends the public settings as per-request overrides.  In two worlds that differ only in secret values it bails out
+   in both or goes on in worlds that again differ only in secret values; so the frames of the run, the doctor report and
+   the start-up output of the spawned authority are the same. *)
+Theorem c19_cli_provider_flags_preserve_low : forall (f : cli_flags) (w1 w2 : world),
+  low_world w1 = low_world w2 ->
+  option_map low_world (cli_world f w1) = option_map low_world (cli_world f w2).
+Proof. exact cli_provider_flags_preserve_low. Qed.
+Print Assumptions c19_cli_provider_flags_preserve_low.
+
+Theorem c19_cli_run_noninterference : forall (f : cli_flags) (fuel : nat) (sc : script) (w1 w2 w1' w2' : world)
+                                             (prompt : str) (initial : list item),
+  low_world w1 = low_world w2 ->
+  cli_world f w1 = Some w1' -> cli_world f w2 = Some w2' ->
+  persisted (run fuel sc true w1' prompt initial) = persisted (run fuel sc true w2' prompt initial)
+  /\ doctor_report w1' = doctor_report w2'
+  /\ startup_warnings (w_env w1') = startup_warnings (w_env w2').
+Proof. exact cli_run_noninterference. Qed.
+Print Assumptions c19_cli_run_noninterference.
+
+Example c19_cli_env_example :
+  cli_env (mkFlags POpenai None false false None) [(E_OPENAI, lit "sk-AAAA")]
+  = Some [(E_API_KEY, lit "sk-AAAA"); (E_ENDPOINT, lit "https://api.openai.com/v1/responses"); (E_OPENAI, lit "sk-AAAA")]
+  /\ cli_env (mkFlags POpenrouter None false false None) [(E_OPENAI, lit "sk-AAAA")] = None.
+Proof. exact cli_env_example. Qed.
+
 (* Non-vacuity: two worlds with different keys / header values / env values have the same low
    projection; in both the secret DOES leave the process — in the outgoing request only. *)
 Example c19_example_low_equal :
